@@ -6,6 +6,7 @@ From PV Require Import lib.Sx lib.Str lib.Result model.GenScc model.SccTime mode
 From PV Require Import spec.Spec608 spec.SpecScc05.
 From PV Require Import proofs.SccTableFacts proofs.SccTableFixFacts proofs.SccDoubleFacts proofs.SccItalicsFacts proofs.SccPoponStage1 proofs.SccPoponStage2 proofs.SccPoponStage3 proofs.SccPoponStage4 proofs.SccPoponStage6 proofs.SccPoponStage5 proofs.SccPoponStage2c proofs.SccPoponStage7 proofs.SccPoponStage8 proofs.SccPoponStage9.
 From PV Require Import spec.SpecSccTime proofs.SccPoponFacts.
+From PV Require Import model.SccTokenise proofs.SccTokeniseFacts proofs.SccLineLayoutFacts proofs.SccTextFacts.
 Import ListNotations.
 Open Scope Z_scope.
 
@@ -326,6 +327,103 @@ Theorem C05_former_counterexamples_now_read :
                        | ROk (c :: _) => Nat.eqb (length (cap_text c)) 32 | _ => false end) [false; true]) [cex_load_ital; cex_load_ital2] = true.
 Proof. exact cex_loads_now_read. Qed.
 Print Assumptions C05_former_counterexamples_now_read.
+
+(* ---- wave 5: OTHER STREAM LAYOUTS and the TEXT front end.
+   (1) line-layout invariance of the reader model: cutting a timecode line (tc, a ++ b) into (tc, a); (tc', b) - or joining
+   two lines - does not change what `read` returns, provided tc' denotes the instant length a frames after tc (same_clock:
+   get_time agrees at every later word) and the cut is not between a mid-row code and a word starting with . ! ? ,
+   (split_ok: the only lookahead the reader has; Example C05_cut_side_condition_needed shows it matters). `relayout` is the
+   closure of such cuts / joins (and of dropping an empty line in front of a line) under context, symmetry, transitivity. *)
+Theorem C05_read_layout_invariant : forall off ls ls', relayout off ls ls' -> read off ls = read off ls'.
+Proof. exact read_layout_invariant. Qed.
+Print Assumptions C05_read_layout_invariant.
+(* same_clock for rendered well-formed timecodes: any two timecodes of the same kind that are n frames apart (seconds /
+   minutes / hours may roll over) *)
+Theorem C05_same_clock_wf : forall off t t' n, tc_wf t = true -> tc_wf t' = true -> tc_drop t = tc_drop t' -> 0 <= n ->
+  (tc_h t * 3600 + tc_m t * 60 + tc_s t) * 30 + tc_f t + n = (tc_h t' * 3600 + tc_m t' * 60 + tc_s t') * 30 + tc_f t' ->
+  same_clock off (render_tc t) n (render_tc t').
+Proof. exact same_clock_wf. Qed.
+Print Assumptions C05_same_clock_wf.
+(* hence popon_refines_608 for EVERY layout of the same word sequence with the same instant per word (pseg_ok8 = load_wf per
+   load): loads split over several lines, several loads / the Erase-Displayed-Memory code on one line, ... *)
+Theorem C05_popon_refines_608_layout : forall d off segs evs spans ls',
+  forallb pseg_ok8 segs = true -> res_map (pseg_event d off) segs = Ok evs -> positive evs -> after_show None evs ->
+  expected_with join_threshold evs = Ok spans ->
+  relayout off (map (pseg_line d) segs) ls' ->
+  exists caps, read off ls' = ROk caps /\
+               ok_c05 (mkProg d (ploads_of segs)) (Ok (map observe caps)) = true /\
+               dom_c05 (mkProg d (ploads_of segs)) = true.
+Proof. exact popon_refines_608_layout. Qed.
+Print Assumptions C05_popon_refines_608_layout.
+(* every segment cut over any number of lines at admissible word boundaries *)
+Theorem C05_popon_refines_608_cuts : forall d off segs evs spans lss,
+  forallb pseg_ok8 segs = true -> res_map (pseg_event d off) segs = Ok evs -> positive evs -> after_show None evs ->
+  expected_with join_threshold evs = Ok spans ->
+  Forall2 (fun s pieces => cuts off (fst (pseg_line d s)) (snd (pseg_line d s)) pieces) segs lss ->
+  exists caps, read off (concat lss) = ROk caps /\
+               ok_c05 (mkProg d (ploads_of segs)) (Ok (map observe caps)) = true /\
+               dom_c05 (mkProg d (ploads_of segs)) = true.
+Proof. exact popon_refines_608_cuts. Qed.
+Print Assumptions C05_popon_refines_608_cuts.
+(* two consecutive segments on ONE line (two loads, or a load followed by its Erase-Displayed-Memory code) *)
+Theorem C05_popon_refines_608_merged : forall d off segs1 s1 s2 segs2 evs spans,
+  let segs := segs1 ++ s1 :: s2 :: segs2 in
+  forallb pseg_ok8 segs = true -> res_map (pseg_event d off) segs = Ok evs -> positive evs -> after_show None evs ->
+  expected_with join_threshold evs = Ok spans ->
+  same_clock off (fst (pseg_line d s1)) (Z.of_nat (length (snd (pseg_line d s1)))) (fst (pseg_line d s2)) ->
+  exists caps, read off (map (pseg_line d) segs1 ++ [(fst (pseg_line d s1), snd (pseg_line d s1) ++ snd (pseg_line d s2))]
+                         ++ map (pseg_line d) segs2) = ROk caps /\
+               ok_c05 (mkProg d (ploads_of segs)) (Ok (map observe caps)) = true /\
+               dom_c05 (mkProg d (ploads_of segs)) = true.
+Proof. exact popon_refines_608_merged. Qed.
+Print Assumptions C05_popon_refines_608_merged.
+(* non-vacuity: ENM RCL PAC "ab" PAC "cd" EOC at 00:00:01:00 cut after its fourth word (second line 00:00:01:04) *)
+Example C05_layout_instance : exists caps, read 0 ex_split = ROk caps /\
+  ok_c05 (mkProg false [ex_load]) (Ok (map observe caps)) = true /\ dom_c05 (mkProg false [ex_load]) = true.
+Proof. exact ex_refines. Qed.
+Example C05_cut_side_condition_needed :
+  split_ok [38062; 37920; 37952; 24930; 37152] [44792; 37935] = false /\
+  read 0 [(lit "00:00:01:00", [38062; 37920; 37952; 24930; 37152] ++ [44792; 37935]); (lit "00:00:03:00", [37932])]
+    = ROk [mkPre 1201200 3003000 [CText [97; 98; 46; 120] (14, 0)] (Some (14, 0))] /\
+  read 0 [(lit "00:00:01:00", [38062; 37920; 37952; 24930; 37152]); (lit "00:00:01:05", [44792; 37935]); (lit "00:00:03:00", [37932])]
+    = ROk [mkPre 1201200 3003000 [CText [97; 98; 32; 46; 120] (14, 0)] (Some (14, 0))].
+Proof. exact ex_side_condition_needed. Qed.
+
+(* (2) the text front end (model/SccTokenise.v: splitlines, header line skipped, blank lines ignored, lower-casing, timecode
+   field = longest prefix of [0-9:;], split at single blanks, strip, 4-character tokens, hex): tokenising the canonical SCC
+   text of a line list (lower- or upper-case hex digits; LF, CRLF or CR line ends) gives the line list back, so every
+   theorem about `read off ls` is a theorem about the SCC TEXT `render_gen up eol ls` *)
+Theorem C05_tokenise_render : forall up eol ls,
+  good_eol eol -> Forall wf_sline ls -> tokenise (render_gen up eol ls) = ls.
+Proof. exact tokenise_render_gen. Qed.
+Print Assumptions C05_tokenise_render.
+Theorem C05_read_text : forall off up eol ls,
+  good_eol eol -> Forall wf_sline ls -> read off (tokenise (render_gen up eol ls)) = read off ls.
+Proof. exact read_tokenise_render_gen. Qed.
+Print Assumptions C05_read_text.
+(* rendered text has no dropped tokens: the reader's raw-token lookahead and the model's next-word lookahead coincide *)
+Theorem C05_rendered_tokens_regular : forall up l, wf_sline l -> tokens_regular (render_line up l) = true.
+Proof. exact tokens_regular_render_line. Qed.
+Print Assumptions C05_rendered_tokens_regular.
+(* (1) + (2) + popon_refines_608: the canonical SCC TEXT of any admissible line layout of a well-formed pop-on program is
+   read - tokeniser included - into captions that satisfy the CEA-608 screen oracle *)
+Theorem C05_popon_refines_608_text : forall d off segs evs spans ls' up eol,
+  forallb pseg_ok8 segs = true -> res_map (pseg_event d off) segs = Ok evs -> positive evs -> after_show None evs ->
+  expected_with join_threshold evs = Ok spans ->
+  relayout off (map (pseg_line d) segs) ls' -> Forall wf_sline ls' -> good_eol eol ->
+  exists caps, read off (tokenise (render_gen up eol ls')) = ROk caps /\
+               ok_c05 (mkProg d (ploads_of segs)) (Ok (map observe caps)) = true /\
+               dom_c05 (mkProg d (ploads_of segs)) = true.
+Proof. exact popon_refines_608_text. Qed.
+Print Assumptions C05_popon_refines_608_text.
+Example C05_text_instance :
+  exists caps, read 0 (tokenise (render_gen true eol_crlf ex_split)) = ROk caps /\
+               ok_c05 (mkProg false [ex_load]) (Ok (map observe caps)) = true.
+Proof. exact popon_refines_608_text_instance. Qed.
+Example C05_tokenise_instance :
+  tokenise (lit "anything" ++ [10] ++ lit "00:00:01:00  9420  9470 zz61 942 94200 " ++ [9] ++ lit "942f")
+  = [ (lit "00:00:01:00", [37920; 38000; 0; 37935]) ].
+Proof. vm_compute. reflexivity. Qed.
 
 (* non-vacuity of C05_popon_refines_608: a whole program with mid-row codes, extended characters, a backspace, an italic
    preamble, adjacent and scattered rows, two loads and a clear line, doubled codes: the hypotheses hold and the conclusion
